@@ -31,8 +31,17 @@ func (s ExploreUnion) Interests() []datamodel.PathSegment {
 	// Accumulate the whitelist of interesting path segments.
 	// TODO: Dedup?
 	v := []datamodel.PathSegment{}
+	seen := map[string]struct{}{}
 	for _, m := range s.Members {
-		v = append(v, m.Interests()...)
+		for _, ps := range m.Interests() {
+			// A child that several members are interested in is still explored once
+			// (Explore hands it the union of what those members select).
+			if _, dup := seen[ps.String()]; dup {
+				continue
+			}
+			seen[ps.String()] = struct{}{}
+			v = append(v, ps)
+		}
 	}
 	return v
 }
